@@ -13,7 +13,7 @@ from vt import kinds, tags as vtags
 
 EDIT_KINDS = ['value', 'element', 'callable-compatible', 'callable-incompatible', 'arg-added',
               'arg-removed', 'tag-added', 'tag-removed', 'alias-created', 'alias-broken',
-              'subtree-moved', 'siblings-swapped', 'btype']
+              'subtree-moved', 'siblings-swapped', 'btype', 'btype-subclass', 'container-type']
 
 COMPATIBLE = {kinds.node: kinds.node2, kinds.node2: kinds.node, kinds.Base: kinds.Other,
               kinds.Other: kinds.Base}
@@ -143,6 +143,21 @@ def apply_edit(root, kind, rng, leaves):
       return False
     b = rng.choice(cands)
     b.btype = 'Partial' if b.btype == 'Config' else 'Config'
+    return True
+  if kind == 'btype-subclass':
+    cands = [b for b in bs if b is not root and b.btype in ('Config', 'SubConfig')]
+    if not cands:
+      return False
+    b = rng.choice(cands)
+    b.btype = 'SubConfig' if b.btype == 'Config' else 'Config'
+    return True
+  if kind == 'container-type':
+    cands = [n for n in gen.walk(root) if isinstance(n, gen.Seq) and len(n.items) == 2
+             and n.typ in ('tuple', 'point', 'pair', 'list')]
+    if not cands:
+      return False
+    n = rng.choice(cands)
+    n.typ = rng.choice([t for t in ('tuple', 'point', 'pair', 'list') if t != n.typ])
     return True
   if kind == 'arg-added':
     cands = [b for b in bs if free_kw(b)]
